@@ -16,6 +16,8 @@ RULE = ('cases = bounded-exhaustive (thorough) / seeded sample (quick) of (N1,R1
         'sides; unary, kron/**, full() order 1..6, factories. Oracle: harness-own dense contraction; bit-equality on int-valued cores, '
         '1e3*u*S_rep otherwise; dtype and documented rank structure. distinct = (generator, op, structure, dtype, value class); '
         'non-trivial = non-zero reference and (order>=2 or scalar/broadcast form).')
+from ..hist import RULE_SUFFIX as _RS
+RULE = RULE + _RS
 ASSUMPTIONS = ['float64 reshape+matmul contraction of the cores is the reference value of a TT object',
                'np.int64/np.float32 operands of x*s and x/s and complex divisors are explicitly refused by the library (InvalidArguments) and are outside the workload',
                'broadcasting in which the FIRST operand would be expanded is documented as unsupported and is C18 business']
